@@ -204,8 +204,11 @@ Qed.
 (* ================================================================================================================
    TEXT FORMATS: the premise H_ext DISCHARGED for CSV, tab-delimited text and NDJSON.
    Model/Csv.v      csv_write d rows = the characters csv.writer(f, delimiter=d) (excel dialect) writes for the rows;
-                    csv_read d file = list(csv.reader(...)) over the file as CSVUnpacker opens it (mode r: universal
-                    newlines), Ok rows or the exception; csv_read_raw = the same over a file opened with newline=''.
+                    csv_read d file = list(csv.reader(...)) over the file opened in mode r with the default newline
+                    handling (universal newlines), Ok rows or the exception; csv_read_raw = the same over a file opened
+                    with newline=''; lib_read = the one of the two that CSVUnpacker.open's open call selects, READ FROM
+                    THE SOURCE on every run (Gen/CsvOpenParams.csv_newline_raw, harness/t1_c03b.py): csv_read_raw from
+                    commit aa3b8fc on (fix: CSV files are opened with newline=''), csv_read before it.
    Model/Ndjson.v   ndjson_write ea docs = one json.dumps(dict, ensure_ascii=ea) per line; ndjson_read file = the
                     json.loads of every line as JSONUnpacker delivers them (Done docs / Raise e).
    Proofs/CsvP.v, Proofs/NdjsonP.v, Proofs/TextFormatsP.v hold the proofs.  Both models are tied to CPython and to the
@@ -216,7 +219,8 @@ Require Import SR.Proofs.TextFormatsP.
 
 (* CSV: for EVERY delimiter other than the quote character, CR and LF, and EVERY list of rows (no rows, rows without
    cells, a single empty cell, ragged rows) whose cells are any code points except the carriage return and hold at most
-   csv.field_size_limit() = 131072 characters, the library's reader returns exactly the rows the writer was given.
+   csv.field_size_limit() = 131072 characters, csv.reader over the file opened in mode r WITHOUT newline='' (the open
+   call of the tree before aa3b8fc) returns exactly the rows the writer was given.
    delim_ok d  = negb (d =? 34) && negb (d =? 13) && negb (d =? 10)
    table_ok T  = forallb (forallb (fun c => forallb (fun x => negb (x =? 13)) c && (N.of_nat (length c) <=? 131072))) T *)
 Theorem C03_csv_roundtrip : forall (delim : N) (T : list (list Csv.text)),
@@ -224,20 +228,29 @@ Theorem C03_csv_roundtrip : forall (delim : N) (T : list (list Csv.text)),
 Proof. exact CsvP.csv_roundtrip. Qed.
 Print Assumptions C03_csv_roundtrip.
 
-(* the same file read the way the csv documentation asks for (newline=''): carriage returns come back too *)
+(* the same file read the way the csv documentation asks for and the library now opens it (newline=''): carriage
+   returns come back too.  table_ok_raw T = forallb (forallb (fun c => N.of_nat (length c) <=? 131072)) T *)
 Theorem C03_csv_roundtrip_raw : forall (delim : N) (T : list (list Csv.text)),
   Csv.delim_ok delim = true -> Csv.table_ok_raw T = true -> Csv.csv_read_raw delim (Csv.csv_write delim T) = Ok T.
 Proof. exact CsvP.csv_roundtrip_raw. Qed.
 Print Assumptions C03_csv_roundtrip_raw.
 
-(* outside the domain, finding 2: CSVUnpacker opens the file in mode r, so a carriage return in a cell arrives as a
-   line feed and CR LF as ONE line feed; with newline='' the same file gives the cell back *)
-Theorem C03_refuted_2 :
+(* A text-mode open WITHOUT newline='' - what CSVUnpacker.open did in the tree before aa3b8fc (repaired finding
+   K-csv-carriage-return) - does not read a carriage return back: it arrives as a line feed and CR LF as ONE line feed;
+   with newline='' the same file gives the cell back.  This is a statement about csv_read (the text-mode reader), not
+   about the library as it is now (lib_read, C03_text_premise). *)
+Theorem C03_csv_text_mode_refuted :
   Csv.csv_read Csv.COMMA (Csv.csv_write Csv.COMMA [[[97; 13; 98]]]%N) = Ok [[[97; 10; 98]]]%N
   /\ Csv.csv_read Csv.COMMA (Csv.csv_write Csv.COMMA [[[97; 13; 10; 98]]]%N) = Ok [[[97; 10; 98]]]%N
   /\ Csv.csv_read_raw Csv.COMMA (Csv.csv_write Csv.COMMA [[[97; 13; 98]]]%N) = Ok [[[97; 13; 98]]]%N.
 Proof. exact CsvP.csv_cr_lost. Qed.
-Print Assumptions C03_refuted_2.
+Print Assumptions C03_csv_text_mode_refuted.
+
+(* the library's reader, as CSVUnpacker.open opens the file NOW (read from the source): every table comes back *)
+Theorem C03_csv_roundtrip_lib : forall (delim : N) (T : list (list Csv.text)),
+  Csv.delim_ok delim = true -> Csv.table_ok_raw T = true -> Csv.lib_read delim (Csv.csv_write delim T) = Ok T.
+Proof. exact CsvP.lib_roundtrip. Qed.
+Print Assumptions C03_csv_roundtrip_lib.
 
 (* delim_ok is exact: each of the three excluded delimiters loses a table even with newline='' *)
 Theorem C03_csv_delimiters_exact :
@@ -268,7 +281,10 @@ Print Assumptions C03_ndjson_surrogates_exact.
 
 (* The premise of C03_facade, PROVED for the three text formats: what the unpacker delivers for the file the
    harness's writer wrote for W is the stored table.
-   text_storable ea f W: CSV / TAB = table_ok (header row :: data rows); NDJSON = text_ok ea of every name and cell *)
+   text_parse reads CSV / TAB through lib_read, i.e. through the open call the source has now; the proof needs
+   Gen/CsvOpenParams.csv_newline_raw = true and stops compiling when the fix aa3b8fc is reverted.
+   text_storable ea f W: CSV / TAB = table_ok_raw (header row :: data rows) - cells of ANY code points, carriage returns
+   included, within the field size limit; NDJSON = text_ok ea of every name and cell *)
 Theorem C03_text_premise : forall (ea : bool) (f : fmt) (W : workbook),
   text_format f = true -> storable f W = true -> wf_workbook W -> text_storable ea f W = true ->
   text_parse f (text_write ea f W) = phys f W.
@@ -339,8 +355,8 @@ Example C03_example_ndjson_domain :
         34; 125; 10; 123; 125; 10]%N.
 Proof. repeat split; vm_compute; reflexivity. Qed.
 
-(* a table with a quote, a delimiter, a line feed, blanks, an empty cell, non-ASCII and non-BMP text is in the
-   domain of all three formats *)
+(* a table with a quote, a delimiter, a line feed, a carriage return, CR LF, blanks, an empty cell, non-ASCII and
+   non-BMP text is in the domain of all three formats *)
 Example C03_example_text_formats :
   wf_workbook [([], ex_text_T)]
   /\ text_storable true F_CSV [([], ex_text_T)] = true /\ text_storable true F_TAB [([], ex_text_T)] = true
